@@ -55,7 +55,7 @@ def _len_of(f, operand, callee_pat):
 
 
 def C18_1(ctx, facts):
-    f = facts.method("bridge::io::TokioIo", "hyper::rt::Read", "poll_read")
+    f = facts.unit(facts.method("bridge::io::TokioIo", "hyper::rt::Read", "poll_read"))
     ctx.touched(f)
     inner = [c for c in f.calls() if norm(c.decl or c.name).endswith("AsyncRead::poll_read")]
     adv = [c for c in f.calls() if c.matches(r"ReadBufCursor.*::advance$")]
@@ -95,7 +95,7 @@ def C18_1(ctx, facts):
 
 
 def C18_2(ctx, facts):
-    f = facts.method("bridge::io::TokioIo", "tokio::io::AsyncRead", "poll_read")
+    f = facts.unit(facts.method("bridge::io::TokioIo", "tokio::io::AsyncRead", "poll_read"))
     ctx.touched(f)
     inner = [c for c in f.calls() if norm(c.decl or c.name).endswith("rt::Read::poll_read") or c.matches(r"hyper::rt::(io::)?Read.*::poll_read$")]
     sf = [c for c in f.calls() if c.matches(r"tokio::io::ReadBuf.*::set_filled$")]
@@ -176,7 +176,7 @@ def _copy_src(f, operand):
 
 
 def C18_4(ctx, facts):
-    f = facts.fn("stream::duplex::DuplexStream::new")
+    f = facts.unit(facts.fn("stream::duplex::DuplexStream::new"))
     ctx.touched(f)
     dup = [c for c in f.calls() if c.is_("tokio::io::duplex", "tokio::io::util::mem::duplex")]
     ctx.check(len(dup) == 1, "DuplexStream::new|one-pair", "both ends come from one tokio::io::duplex(max_buf_size) pair", "%d duplex() calls" % len(dup), f.where())
